@@ -255,7 +255,6 @@ func vhC06Check(p *Path, x, y float64) {
 	switch region {
 	case vhC06Clean:
 		vAssert("C06.clean.crossings", cnum)
-		vKnown("D29", r.vertexOnRay)
 		vAssert("C06.clean.crossings_vertex_parity", np || excl || !r.vertexOnRay || (n-r.n)%2 == 0)
 	case vhC06RClose:
 		vAssert("C06.open_closing.crossings", cnum)
